@@ -677,12 +677,14 @@ impl Id {
             Ast::Id => f(cv.1),
             Ast::Recurse => recurse_update(cv.1, &f),
             Ast::Path(l, path) => {
-                let path = path.map_ref(|i| {
-                    let cv = cv.clone();
-                    crate::into_iter::collect_if_once(move || i.run(cv))
-                });
+                let cv0 = cv.clone();
                 let f = move |v| {
-                    let mut paths = path.clone().explode();
+                    // run the index filters only once the subject has yielded a value to update
+                    let path = path.map_ref(|i| {
+                        let cv = cv0.clone();
+                        crate::into_iter::collect_if_once(move || i.run(cv))
+                    });
+                    let mut paths = path.explode();
                     box_once(paths.try_fold(v, |acc, path| path?.update(acc, &f)))
                 };
                 l.update(cv, Box::new(f))
